@@ -146,6 +146,127 @@ func (c *Ctx) ruleM3(ruleShape, ruleSucc string) {
 	}
 }
 
+// ruleM3b: which evaluators can hand back a true returned-flag together with a
+// non-nil error. break and continue do so by design (their sentinel travels as
+// the error, with the flag set), and the statement dispatcher passes whatever
+// its child returned. Everything above them must filter: a return that passes
+// on both the error and the flag of a child that can do this (without the
+// error being known nil there) can do it too. No other evaluator may be in
+// that set, or a failing rule reaches RuleEntity.Execute with the flag set and
+// gets a result entry.
+func (c *Ctx) ruleM3b(rule string) {
+	evs := c.flagEvaluators()
+	isEv := map[*ssa.Function]bool{}
+	for _, f := range evs {
+		isEv[f] = true
+	}
+	bad := map[*ssa.Function]string{}
+	for _, f := range evs {
+		if n := fnName(f); n == "BreakStmt.Evaluate" || n == "ContinueStmt.Evaluate" {
+			bad[f] = "by design"
+		}
+	}
+	for changed := true; changed; {
+		changed = false
+		for _, f := range evs {
+			if bad[f] != "" {
+				continue
+			}
+			x := c.Index(f)
+			eachInstr(f, func(in ssa.Instruction) {
+				r, ok := in.(*ssa.Return)
+				if !ok || len(r.Results) != 3 || bad[f] != "" {
+					return
+				}
+				for _, fv := range x.PossibleValues(r.Results[2]) {
+					ex, ok := fv.V.(*ssa.Extract)
+					if !ok || ex.Index != 2 {
+						continue
+					}
+					call, ok := ex.Tuple.(*ssa.Call)
+					if !ok || bad[call.Call.StaticCallee()] == "" {
+						continue
+					}
+					for _, ev := range x.PossibleValues(r.Results[1]) {
+						e2, ok := ev.V.(*ssa.Extract)
+						if !ok || e2.Index != 1 || e2.Tuple != ssa.Value(call) {
+							continue
+						}
+						if x.knownNil(ev.V, r.Block()) {
+							continue
+						}
+						bad[f] = fmt.Sprintf("passes on error and flag of %s at %s", fnName(call.Call.StaticCallee()), c.pos(r.Pos()))
+						changed = true
+					}
+				}
+			})
+		}
+	}
+	for _, f := range evs {
+		n := fnName(f)
+		if n == "BreakStmt.Evaluate" || n == "ContinueStmt.Evaluate" || n == "Statement.Evaluate" {
+			continue
+		}
+		c.Check(rule, n, bad[f] == "", f.Pos(), "this evaluator can return a true returned-flag together with a non-nil error (%s): break / continue hand their sentinel up with the flag set, so whoever passes a child's result on must clear the flag when the error is not nil", bad[f])
+	}
+}
+
+// ruleM3c: a return statement that did not fail did return: in
+// ReturnStatement.Evaluate every return whose error can be nil carries the
+// constant flag true (and the value of its expression when it has one);
+// otherwise the rule would go on after its `return`.
+func (c *Ctx) ruleM3c(rule string) {
+	f := c.MustFn(rule, "internal/base", "ReturnStatement", "Evaluate")
+	if f == nil {
+		return
+	}
+	x := c.Index(f)
+	var exprCall *ssa.Call
+	eachInstr(f, func(in ssa.Instruction) {
+		if call, ok := in.(*ssa.Call); ok && calleeIs(call, pBase, "Expression", "Evaluate") {
+			exprCall = call
+		}
+	})
+	k := 0
+	eachInstr(f, func(in ssa.Instruction) {
+		r, ok := in.(*ssa.Return)
+		if !ok || len(r.Results) != 3 || r.Block() == f.Recover {
+			return
+		}
+		k++
+		mayBeNil := false
+		for _, ev := range x.PossibleValues(r.Results[1]) {
+			if ev.V == nil || isConstNil(ev.V) || x.knownNil(ev.V, r.Block()) {
+				mayBeNil = true
+			}
+		}
+		if !mayBeNil {
+			return
+		}
+		okFlag := true
+		for _, fv := range x.PossibleValues(r.Results[2]) {
+			if fv.V == nil {
+				okFlag = false
+				continue
+			}
+			if b, isC := constBool(fv.V); !isC || !b {
+				okFlag = false
+			}
+		}
+		okVal := true
+		if exprCall != nil {
+			if _, after := pathExists(f, exprCall, func(i2 ssa.Instruction) bool { return i2 == in }, nil); after {
+				for _, vv := range x.PossibleValues(r.Results[0]) {
+					if ex, isEx := vv.V.(*ssa.Extract); !isEx || ex.Tuple != ssa.Value(exprCall) || ex.Index != 0 {
+						okVal = false
+					}
+				}
+			}
+		}
+		c.Check(rule, fmt.Sprintf("ReturnStatement.Evaluate#return%d", k), okFlag && okVal, r.Pos(), "a return statement that did not fail must hand up the flag true and the value of its expression (flag ok %v, value ok %v)", okFlag, okVal)
+	})
+}
+
 func orStr(a, b string) string {
 	if a != "" {
 		return a
